@@ -16,6 +16,7 @@ package caddyhttp
 
 import (
 	"fmt"
+	"maps"
 	"net/http"
 	"slices"
 	"strconv"
@@ -90,7 +91,14 @@ func (app *App) automaticHTTPSPhase1(ctx caddy.Context, repl *caddy.Replacer) er
 	// the log configuration for an HTTPS enabled server
 	var logCfg *ServerLogConfig
 
-	for srvName, srv := range app.Servers {
+	// all maps in this function are ranged over in sorted key order,
+	// so that the same config always yields the same servers, routes
+	// and automation policies (map iteration order is random)
+	srvNames := slices.Sorted(maps.Keys(app.Servers))
+
+	for _, srvName := range srvNames {
+		srv := app.Servers[srvName]
+
 		// as a prerequisite, provision route matchers; this is
 		// required for all routes on all servers, and must be
 		// done before we attempt to do phase 1 of auto HTTPS,
@@ -268,7 +276,7 @@ func (app *App) automaticHTTPSPhase1(ctx caddy.Context, repl *caddy.Replacer) er
 	// we now have a list of all the unique names for which we need certs
 	var internal, tailscale []string
 uniqueDomainsLoop:
-	for d := range uniqueDomainsForCerts {
+	for _, d := range slices.Sorted(maps.Keys(uniqueDomainsForCerts)) {
 		// some names we've found might already have automation policies
 		// explicitly specified for them; we should exclude those from
 		// our hidden/implicit policy, since applying a name to more than
@@ -322,8 +330,8 @@ uniqueDomainsLoop:
 	// we need to reduce the mapping, i.e. group domains by address
 	// since new routes are appended to servers by their address
 	domainsByAddr := make(map[string][]string)
-	for domain, addrs := range redirDomains {
-		for _, addr := range addrs {
+	for _, domain := range slices.Sorted(maps.Keys(redirDomains)) {
+		for _, addr := range redirDomains[domain] {
 			addrStr := addr.String()
 			domainsByAddr[addrStr] = append(domainsByAddr[addrStr], domain)
 		}
@@ -336,7 +344,9 @@ uniqueDomainsLoop:
 	redirServers := make(map[string][]Route)
 	var redirRoutes RouteList
 
-	for addrStr, domains := range domainsByAddr {
+	for _, addrStr := range slices.Sorted(maps.Keys(domainsByAddr)) {
+		domains := domainsByAddr[addrStr]
+
 		// build the matcher set for this redirect route; (note that we happen
 		// to bypass Provision and Validate steps for these matcher modules)
 		matcherSet := MatcherSet{MatchProtocol("http")}
@@ -383,14 +393,18 @@ uniqueDomainsLoop:
 	}
 
 redirServersLoop:
-	for redirServerAddr, routes := range redirServers {
+	for _, redirServerAddr := range slices.Sorted(maps.Keys(redirServers)) {
+		routes := redirServers[redirServerAddr]
+
 		// for each redirect listener, see if there's already a
 		// server configured to listen on that exact address; if so,
 		// insert the redirect route to the end of its route list
 		// after any other routes with host matchers; otherwise,
 		// we'll create a new server for all the listener addresses
 		// that are unused and serve the remaining redirects from it
-		for _, srv := range app.Servers {
+		for _, srvName := range srvNames {
+			srv := app.Servers[srvName]
+
 			// only look at servers which listen on an address which
 			// we want to add redirects to
 			if !srv.hasListenerAddress(redirServerAddr) {
@@ -426,10 +440,7 @@ redirServersLoop:
 	// in any existing server, make our own to serve the
 	// rest of the redirects
 	if len(redirServerAddrs) > 0 {
-		redirServerAddrsList := make([]string, 0, len(redirServerAddrs))
-		for a := range redirServerAddrs {
-			redirServerAddrsList = append(redirServerAddrsList, a)
-		}
+		redirServerAddrsList := slices.Sorted(maps.Keys(redirServerAddrs))
 		app.Servers["remaining_auto_https_redirects"] = &Server{
 			Listen: redirServerAddrsList,
 			Routes: appendCatchAll(redirRoutes),
